@@ -64,11 +64,15 @@ var c04Generic = []map[string][]string{
 	{"Accept-Language": {"en"}}, {"Accept-Language": {"en, fr;q=0.5"}}, {"Accept-Language": {"fr"}}, {"Accept-Language": {"en;q=0.5, fr"}},
 	{"Accept": {"text/html"}}, {"Accept": {"application/json"}}, {"Accept": {"text/html;level=1"}},
 	{"User-Agent": {"a/1"}}, {"User-Agent": {"b/1"}},
+	// members that share a value but not its parameters; names that contain an alias
+	{"Accept": {"application/json;version=1"}}, {"Accept": {"application/json;version=1, application/json;version=2"}}, {"Accept": {"application/json;version=2"}},
+	{"Accept": {"text/html;level=1, text/html;level=2;q=0.5"}},
+	{"Accept-Encoding": {"x-gzip-ng"}}, {"Accept-Encoding": {"gzip-ng"}}, {"Accept-Encoding": {"x-gzip"}}, {"Accept-Encoding": {"max-x-compress"}}, {"Accept-Encoding": {"max-compress"}},
 	{"X-A": {"1"}, "X-B": {"1"}}, {"X-A": {"1"}, "X-B": {"2"}}, {"X-A": {"2"}, "X-B": {"1"}},
 }
 
 var c04Varys = [][]string{nil, {"X-A"}, {"X-B"}, {"X-A, X-B"}, {"X-B, X-A"}, {"x-a , x-b"}, {"X-A", "X-B"}, {"*"}, {"X-A, *"}, {"*", "X-A"},
-	{"Accept-Encoding"}, {"Accept-Language"}, {"Accept, Accept-Encoding"}, {"User-Agent"}, {"X-A, Accept-Encoding"}}
+	{"Accept-Encoding"}, {"Accept-Language"}, {"Accept, Accept-Encoding"}, {"User-Agent"}, {"X-A, Accept-Encoding"}, {"Accept"}, {"Accept-Encoding"}, {"Accept"}}
 
 func genC04(r *rand.Rand) c04Case {
 	var c c04Case
